@@ -78,8 +78,12 @@ func runFull(c *Ctx, scAny any) {
 	if sc.UDPBook {
 		book[cp.Method] = []string{"udp", "10.0.0.3:8388"}
 	}
-	w := NewSrvWorld(c, SrvParams{ProxyBook: book, NBypass: 1, WithDB: sc.UIDKind == 3})
+	w := NewSrvWorld(c, SrvParams{ProxyBook: book, NBypass: 2, WithDB: sc.UIDKind == 3})
 	defer w.Cleanup()
+	// a rival: in a third of the runs another user of the same server (its own
+	// UID and session id) performs its handshakes at the same time; what the
+	// server recovers for one client must not depend on the other
+	rival := sc.Seed%3 == 0
 	switch sc.UIDKind {
 	case 0:
 		cp.UID = w.Bypass[0]
@@ -137,6 +141,17 @@ func runFull(c *Ctx, scAny any) {
 	var clientKey [32]byte
 	var srvSesh *mux.Session
 	var found bool
+	if rival {
+		rp := ClientParams{UID: w.Bypass[1], Method: cp.Method, Encryption: "aes-gcm", Browser: "firefox", Transport: cp.Transport, ServerName: cp.ServerName,
+			NumConn: 2, SessionID: cp.SessionID ^ 0x5a5a5a5a, CDNOriginHost: cp.CDNOriginHost, CDNWsUrlPath: cp.CDNWsUrlPath}
+		_, rremote, rauth, rerr := w.ClientConfig(rp, rand.New(rand.NewPCG(sc.Seed, 66)))
+		if rerr == nil {
+			simsync.Go("h:rival", func() {
+				d := &simnet.Dialer{Net: c.Net, LocalIP: "10.0.6.2", Tag: "rival"}
+				client.MakeSession(rremote, rauth, d)
+			})
+		}
+	}
 	simsync.Go("h:client", func() {
 		defer func() { finished = true }()
 		d := &simnet.Dialer{Net: c.Net, LocalIP: "10.0.6.1", Tag: "front"}
